@@ -3,7 +3,6 @@
 package pfcp
 
 import (
-	"fmt"
 	"net"
 	"time"
 
@@ -28,9 +27,10 @@ func zzEstReq(seq uint32, ies ...*ie.IE) *message.SessionEstablishmentRequest {
 // zzDeliver hands a request to the server the way main does for a first copy:
 // an RX transaction is created, then the request is dispatched.
 func zzDeliver(s *PfcpServer, msg message.Message, addr net.Addr, seq uint32) {
-	trID := fmt.Sprintf("%s-%d", addr, seq)
+	// what the event loop does for a first copy of a request: a new receive transaction, registered
+	// under the id the implementation itself gave it (the harness never spells a transaction key)
 	rx := NewRxTransaction(s, addr, seq)
-	s.rxTrans[trID] = rx
+	s.rxTrans[rx.id] = rx
 	err := s.reqDispacher(msg, addr)
 	_ = err
 }
